@@ -283,7 +283,16 @@ func decodeStructValueSlice(field reflect.Value, fieldType reflect.StructField, 
 		return nil
 	}
 
-	for _, el := range strings.Split(value, delim) {
+	var elements []string
+	if delim == " " {
+		/* A blank-separated list may be folded over several lines and may
+		 * use runs of blanks: any white space separates. */
+		elements = strings.Fields(value)
+	} else {
+		elements = strings.Split(value, delim)
+	}
+
+	for _, el := range elements {
 		el = strings.Trim(el, strip)
 
 		targetValue := reflect.New(underlyingType)
